@@ -47,7 +47,7 @@ pub fn anim_desc_strategy() -> impl Strategy<Value = AnimDesc> {
             w_anim => (comp(), comp(), comp()).prop_map(|(a, b, c)| Some(vec![a, b, c])),
         ]
     };
-    (st(6, 1), st(6, 1), st(6, 1), st(1, 6), st(1, 6), 0u8..5, vals_strategy(), 0u8..8)
+    (st(6, 1), st(6, 1), st(6, 1), st(1, 6), st(1, 6), 0u8..5, vals_strategy(), 0u8..16)
         .prop_map(|(s0, s1, s2, s3, s4, initial_state, initial_values, builder_order)| AnimDesc { states: vec![s0, s1, s2, s3, s4], initial_state, initial_values, builder_order })
 }
 
